@@ -209,6 +209,8 @@ class Engine:
         self.feas.set("timeout", 2000)
         from . import models
         models.install(self)
+        from . import models_np2
+        models_np2.install_defaults(self)
 
     # ------------------------------------------------------------------ lookup
     def find_function(self, qual):
@@ -1252,7 +1254,54 @@ class Engine:
             m = self.models.get(name)
             if m is not None:
                 return m(self, st, args, kwargs, node)
+            if name.startswith("func:"):
+                r = self.inline_straight_line(name[5:], args, kwargs, st, node)
+                if r is not None:
+                    return r
         raise Unsupported("call of %r (line %d)" % (fn, node.lineno))
+
+    def inline_straight_line(self, fname, args, kwargs, st, node, depth=0):
+        """A module-level helper without contract whose body is straight-line code ending in one `return <expr>` (no branches, loops, nested
+        definitions or starred parameters) is executed in place: its parameters are bound in a fresh environment, its assignments are run on the
+        caller's heap, the value of the return expression is the value of the call.  Anything else is left to the caller (Unsupported)."""
+        f = next((f_ for f_ in self.tree.body if isinstance(f_, ast.FunctionDef) and f_.name == fname), None)
+        if f is None or f.args.vararg or f.args.kwarg or f.args.kwonlyargs or getattr(self, "_inline_depth", 0) >= 3:
+            return None
+        body = [s_ for s_ in f.body if not (isinstance(s_, ast.Expr) and isinstance(s_.value, ast.Constant))]
+        if not body or not isinstance(body[-1], ast.Return) or body[-1].value is None:
+            return None
+        if not all(isinstance(s_, ast.Assign) and all(isinstance(t, ast.Name) for t in s_.targets) for s_ in body[:-1]):
+            return None
+        if any(isinstance(n, (ast.Lambda, ast.Yield, ast.YieldFrom, ast.Await)) for s_ in body for n in ast.walk(s_)):
+            return None
+        pn = [a.arg for a in f.args.args]
+        nd = len(f.args.defaults)
+        env = {}
+        for i_, nm in enumerate(pn):
+            if i_ < len(args):
+                if isinstance(args[i_], tuple):
+                    return None
+                env[nm] = args[i_]
+            elif nm in kwargs:
+                env[nm] = kwargs[nm]
+            elif i_ >= len(pn) - nd:
+                env[nm] = self.ev(f.args.defaults[i_ - (len(pn) - nd)], st)
+            else:
+                raise Unsupported("call of %s: missing argument %s (line %d)" % (fname, nm, node.lineno))
+        if len(args) > len(pn) or any(k not in pn for k in kwargs):
+            raise Unsupported("call of %s: unexpected arguments (line %d)" % (fname, node.lineno))
+        saved = st.env
+        self._inline_depth = getattr(self, "_inline_depth", 0) + 1
+        try:
+            st.env = env
+            for s_ in body[:-1]:
+                v = self.ev(s_.value, st)
+                for t in s_.targets:
+                    st.env[t.id] = v
+            return self.ev(body[-1].value, st)
+        finally:
+            st.env = saved
+            self._inline_depth -= 1
 
     def call_contract(self, c, args, kwargs, st, node):
         """Modular call: check requires, havoc nothing (callee contracts here are pure), assume
